@@ -99,6 +99,12 @@ def run(ctx):
             raise vlib.ToolError("%s: no file in which a smaller payload than its predecessor's ends the file" % cont)
         if max(c["max_texels"] for c in mine) < 65536:
             raise vlib.ToolError("%s: no texture with width x height >= 65536" % cont)
+    if not any(c["pad_bad"] > 0 for c in cases if c["c"] == "tpl"):
+        raise vlib.ToolError("tpl: no palette image whose padding texels hold an invalid palette index")
+    if not any(c["p"]["tail"] > 0 for c in cases) or not any(c["p"]["junk"] > 0 for c in cases):
+        raise vlib.ToolError("no placement with trailing bytes / junk in reserved fields")
+    ctx.extra["tpl_files_with_invalid_indices_in_padding_texels"] = sum(1 for c in cases if c["pad_bad"] > 0)
+    ctx.extra["files_with_trailing_bytes"] = sum(1 for c in cases if c["p"]["tail"] > 0)
     ctx.extra["files_with_shrinking_payload_at_end_of_file"] = sum(1 for c in cases if c["shrink_eof"])
     ctx.extra["files_with_a_texture_of_65536_texels_or_more"] = sum(1 for c in cases if c["max_texels"] >= 65536)
     cpath = ctx.path("cases.ndjson")
@@ -138,6 +144,8 @@ def run(ctx):
         "layouts follow the documented formats where documented and otherwise the de-facto layout the readers walk; CGFX "
         "self-relative offsets point forwards; BCH compatibility byte 7 or 0x22; BCH / CGFX names are UTF-8, CTPK names Shift-JIS",
         "a TPL texture's payload is its image data: cutting only the palette leaves the outcome open",
+        "don't-care bytes are filled adversarially: padding texels of palette images outside the crop (0xFF, first invalid index, "
+        "any byte), gaps and trailing bytes (filler byte), reserved fields (junk byte); the expected reading does not depend on them",
         "freedom from panic / abort / hang / runaway allocation is observed on the generated files and all their prefixes, not proved",
         "the statement demands no magic check of CTPK: none is exercised",
     ]
